@@ -62,7 +62,7 @@ def selfcheck(pid, mod, repo, chk):
 
     # the replays are independent: forked workers (the analyser holds no state between runs); VERIF_JOBS bounds them
     import multiprocessing
-    jobs = max(1, int(os.environ.get("VERIF_JOBS", "4")))
+    jobs = max(1, int(os.environ.get("VERIF_JOBS", "0") or 0) or min(12, os.cpu_count() or 4))
     results = []
     if jobs > 1 and len(todo) > 4:
         ctx = multiprocessing.get_context("fork")
